@@ -200,6 +200,26 @@ def scenario(rng, kind):
     return prog, meta
 
 
+def meta_from_prog(prog):
+    """Reconstruct the oracle's meta (camera shapes) from a program (corpus / replay files)."""
+    cams = {}
+    for l in prog:
+        w = l.split()
+        if w and w[0] == "cam":
+            kv = dict(x.split("=") for x in w[2:])
+            cams[int(w[1])] = dict(w=int(kv.get("w", 4)), h=int(kv.get("h", 3)), t=int(kv.get("type", 0)),
+                                   trig=int(kv.get("trig", 0)), pace=int(kv.get("pace", 0)))
+    for i in (0, 1):
+        cams.setdefault(i, dict(w=4, h=3, t=0, trig=0, pace=0))
+    return dict(kind="corpus", cams=cams, streams=[0, 1], acqs=[])
+
+
+def load_prog(path):
+    lines = [l.rstrip("\n") for l in open(path)]
+    expect = [l[len("# expect-unfixed:"):].split() for l in lines if l.startswith("# expect-unfixed:")]
+    return [l for l in lines if l and not l.startswith("#")], (expect[0] if expect else [])
+
+
 # ----------------------------------------------------------------------------- the independent oracle
 class Acq:
     def __init__(self, stream, cfg, cam):
@@ -327,6 +347,8 @@ def oracle(prog, lines, meta):
                     dev_event(key, ev, l)
             elif ev in ("append", "get_frame"):
                 dev_event(key, ev, l)
+                if ev == "append" and "FAIL" in l:
+                    dev[key]["running"] = False     # a failing append returns a non-running state: the device stopped itself
             acq = None
             for s in cur:
                 a = cur[s]
@@ -349,6 +371,7 @@ def oracle(prog, lines, meta):
                     acq.sto_started = True
                 elif ev == "append" and "FAIL" in l:
                     acq.sto_fail = True
+                    acq.sto_stopped = True          # the device reported that it left the running state (C16); the HAL will not stop it again
                 elif ev == "append":
                     if acq.sto_fail or acq.cam_fail and False:
                         acq.appended_after_fail = True
